@@ -407,7 +407,40 @@ func (in *Interp) runtimeErrorIface(msg string) Value {
 func (in *Interp) runBlocks(fr *frame) Value {
 	for {
 		b := fr.block
+		// phi nodes are evaluated in parallel on block entry
+		nphi := 0
 		for _, ins := range b.Instrs {
+			if _, ok := ins.(*ssa.Phi); !ok {
+				break
+			}
+			nphi++
+		}
+		if nphi > 0 {
+			edge := -1
+			for i, pred := range b.Preds {
+				if pred == fr.prev {
+					edge = i
+					break
+				}
+			}
+			if edge < 0 {
+				panic(engineErr("phi without matching predecessor in %s", fr.fn))
+			}
+			if nphi == 1 {
+				x := b.Instrs[0].(*ssa.Phi)
+				in.set(fr, x, in.get(fr, x.Edges[edge]))
+			} else {
+				tmp := make([]Value, nphi)
+				for i := 0; i < nphi; i++ {
+					tmp[i] = in.get(fr, b.Instrs[i].(*ssa.Phi).Edges[edge])
+				}
+				for i := 0; i < nphi; i++ {
+					in.set(fr, b.Instrs[i].(*ssa.Phi), tmp[i])
+				}
+			}
+			in.steps += int64(nphi)
+		}
+		for _, ins := range b.Instrs[nphi:] {
 			in.steps++
 			in.curIns = ins
 			if in.steps > in.Cfg.MaxSteps {
@@ -494,12 +527,7 @@ func (in *Interp) exec(fr *frame, ins ssa.Instruction) {
 		in.checkPoison(p)
 		in.store(p, x.Val.Type(), in.get(fr, x.Val))
 	case *ssa.Phi:
-		for i, pred := range fr.block.Preds {
-			if pred == fr.prev {
-				in.set(fr, x, in.get(fr, x.Edges[i]))
-				break
-			}
-		}
+		panic(engineErr("phi not at block start"))
 	case *ssa.FieldAddr:
 		p := in.get(fr, x.X).(Ptr)
 		if p.Obj == nil {
